@@ -113,6 +113,21 @@ NETS = {
         "stations": {"PS-%d" % i: (("cont", 0, 32), 208, 0) for i in range(1, 7)},
         "constraints": [],
     },
+    # N11: finite-rate EVSEs; two constraints on the SAME aggregate current with different limits (the looser one first)
+    # and a pod so tight that the minimum rates of A and B (8 + 6 A) do not fit together
+    "N11": {
+        "stations": {
+            "PS-A": (("fin", F8), 208, 30),
+            "PS-B": (("fin", [6, 12, 18, 24, 30]), 240, 30),
+            "PS-C": (("fin", F6), 208, -90),
+        },
+        "constraints": [
+            ("podL", {"PS-A": 1, "PS-B": 1}, 55.0),
+            ("lc", {"PS-C": 1, "PS-B": -1}, 33.1),
+            ("pod", {"PS-A": 1, "PS-B": 1}, 13.1),
+            ("lcL", {"PS-C": 1, "PS-B": -1}, 48.7),
+        ],
+    },
     # N10: single phase - every station at the same phase angle - with a mixed-sign (feeder unbalance) constraint
     "N10": {
         "stations": {
